@@ -46,6 +46,8 @@ Mirrors, definition by definition,
                                             member/free swap) between numbered objects
 * `container/grid/comparison.hpp`         : `Grid.eq` (size, then three-iterator `std::equal`), `ne`, `lt` (size
                                             lexicographically, then `std::lexicographical_compare` of the cells), `gt`, `le`, `ge`
+* `container/grid/output.hpp`,
+  `detail/print_recurse.hpp`              : `Grid.output`, `printRec` — nested parentheses, last coordinate outermost
 * `container/grid/clamped_min.hpp`        : `clampedMin` — `max(p_i, 0)`
 * `container/grid/clamped_sup.hpp`        : `clampedSup` — `min(p_i, size_i)`
 * `container/grid/clamped_sup_signed.hpp` : `clampedSupSigned` — `math::clamp(p_i, 0, size_i).get_unsafe()`,
@@ -349,6 +351,26 @@ def lt (a b : Grid Int) : Bool :=
 def gt (a b : Grid Int) : Bool := b.lt a
 def le (a b : Grid Int) : Bool := !(a.gt b)
 def ge (a b : Grid Int) : Bool := !(a.lt b)
+
+end Grid
+
+namespace Grid
+
+/-- `detail::print_recurse<Level>(stream, grid, pos)` (`output.hpp`): `Level = 0` prints the cell at `pos`; otherwise
+    `index = Level - 1`, `(`, then for `i = 0 … size[index] - 1`: `pos[index] = i`, the print of `Level - 1`, and a `,`
+    unless `i` is the last one, then `)`.  The index is a compile-time constant below the static size. -/
+def printRec {α : Type} (g : Grid α) (sh : α → String) : Nat → Pos → Except Fault String
+  | 0, pos => sh <$> g.getUnsafe pos
+  | level + 1, pos =>
+    match g.size[level]? with
+    | none => .error .oob
+    | some sz => do
+      let parts ← (List.range sz.toNat).mapM fun (i : Nat) => printRec g sh level (pos.set level (i : Int))
+      pure ("(" ++ ",".intercalate parts ++ ")")
+
+/-- `operator<<(stream, grid)`: `print_recurse<N>(stream, grid, null position)` -/
+def output {α : Type} (g : Grid α) (sh : α → String) : Except Fault String :=
+  g.printRec sh g.size.length (zeros g.size)
 
 end Grid
 
